@@ -23,7 +23,7 @@ impl StringLengthMutator {
 //@fn src/mutators/stringlen.rs StringLengthMutator::mutate_string
 //@vis pub
 //@ret r
-//@props C15 C16 C09
+//@props C15 C16 C04 C11 C17 C09
 //@rewrite R16
 //@subst value.is_empty() => vf_str_is_empty(&value)
 //@subst source.gen_range(0, value.len()) => source.gen_range(0, vf_str_byte_len(&value))
@@ -36,17 +36,21 @@ impl StringLengthMutator {
         vf_rate_zero(rate) ==> r is None, // @C15
         vf_rate_one(rate) ==> r is Some, // @C15
         r is Some ==> stringlen_ok(r->Some_0@, value@), // @C16
+        // what the emitters rely on (assumed there as the contract of Generator::mutate_string)
+        r is Some ==> r->Some_0@.len() <= 2 * value@.len() + 9, // @C11 @C04
+        r is Some && printable(value@) ==> printable(r->Some_0@), // @C04 @C17
 //@loop 1
                     invariant
                         vf_i <= extra_len, 1 <= extra_len <= 9,
                         is_prefix_of(value@, result@), result@.len() == value@.len() + vf_i,
+                        printable(value@) ==> printable(result@),
                     decreases extra_len - vf_i,
 //@endfn
 
 //@fn src/mutators/stringlen.rs StringLengthMutator::mutate_bytes
 //@vis pub
 //@ret r
-//@props C15 C16 C09
+//@props C15 C16 C04 C11 C17 C09
 //@rewrite R16
 //@subst value[..new_len].to_vec() => vf_prefix_to_vec(&value, new_len)
 //@substall? value.clone() => vf_vec_clone(&value)
@@ -56,6 +60,7 @@ impl StringLengthMutator {
         vf_rate_zero(rate) ==> r is None, // @C15
         vf_rate_one(rate) ==> r is Some, // @C15
         r is Some ==> stringlen_ok(r->Some_0@, value@), // @C16
+        r is Some ==> r->Some_0@.len() <= 2 * value@.len() + 9, // @C11 @C04
 //@loop 1
                     invariant
                         vf_i <= extra_len, 1 <= extra_len <= 9,
@@ -68,7 +73,7 @@ impl CharacterMutator {
 //@fn src/mutators/character.rs CharacterMutator::mutate_string
 //@vis pub
 //@ret r
-//@props C15 C16 C09
+//@props C15 C16 C04 C11 C17 C09
 //@subst value.is_empty() => vf_str_is_empty(&value)
 //@subst value.chars().collect() => vf_str_chars(&value)
 //@subst chars.into_iter().collect() => vf_string_from_chars(chars)
@@ -79,6 +84,7 @@ impl CharacterMutator {
         value@.len() == 0 ==> r is None, // @C16
         r is Some ==> r->Some_0@.len() == value@.len() && exists|i: int, c: char| 0 <= i < value@.len()
             && '!' <= c && c <= '~' && #[trigger] value@.update(i, c) == r->Some_0@, // @C16
+        r is Some && printable(value@) ==> printable(r->Some_0@), // @C04 @C17
 //@endfn
 }
 
@@ -86,7 +92,7 @@ impl CharacterMutator {
 //@fn src/mutators/character.rs CharacterMutator::mutate_bytes
 //@vis pub
 //@ret r
-//@props C15 C16 C09
+//@props C15 C16 C04 C11 C17 C09
 //@substall? value.clone() => vf_vec_clone(&value)
 //@contract
     ensures
